@@ -44,6 +44,14 @@ def specCheck (prop : String) (op res : List String) : String :=
     | some k, some out => verdict (Spec.statusFromRPCOk k out) "status is not the published one (or panic)"
     | _, _ => "fail unparsable result"
   | "C11", ["status_from_rpc", _] => verdict (res != ["panic"]) "panic"
+  | "C11", op :: args =>
+    -- every leaf function reachable with attacker-controlled text (header values, paths): never a panic
+    if ["pct_dec", "pct_enc", "grpc_extract", "connect_extract", "grpc_enc", "connect_enc", "path_unescape", "path_escape", "tmpl_parse", "env_dec", "env_enc", "grpc_dec", "parse_int64", "format_int", "route"].contains op then
+      verdict (res != ["panic"]) "panic in a function that processes client- or backend-controlled text"
+    else match op, args with
+      | "e2e", [h] => specE2E "C11" h res
+      | "e2e_fresh", [h] => specE2E "C11" h res
+      | _, _ => "nospec"
   | "C04", ["status_to_rpc", n] =>
     match n.toInt?, res with
     | some k, [r] => match r.toNat? with
@@ -115,6 +123,21 @@ def specCheck (prop : String) (op res : List String) : String :=
       if (a.splitOn "poolviol=").length > 1 then "fail pooled state misused: " ++ ((a.splitOn "poolviol=").getD 1 "")
       else verdict (a == b) "outcome on the used Transcoder differs from the outcome on a fresh one"
     | _ => "fail unparsable result"
+  | "C18", ["rest_out", h] =>
+    -- a REST-only service: the handler runs once when the request line can be built from the message,
+    -- and not at all when it cannot (the request is rejected before dispatch)
+    let want := runRestOut h
+    let got := " ".intercalate res
+    if want.startsWith "disp=0" then verdict (got.startsWith "disp=0") "the handler was invoked although the backend request could not be built"
+    else if want == "config-rejected" || want == "bad-arg" then "nospec"
+    else verdict (got.startsWith "disp=1 ") "the handler was not invoked exactly once for a servable request"
+  | "C15", [op, h] =>
+    -- the REST stream keeps one Transcoder per rule and converts many different messages through it:
+    -- each conversion must be the one the (history-free) model computes
+    if op == "rest_rt" then verdict (runRestRT h == " ".intercalate res) "a conversion to REST depends on what the same route converted before"
+    else if op == "rest_in" || op == "rest_http" then verdict (runRestIn h == " ".intercalate res) "parsing of a REST request depends on earlier requests"
+    else if op == "e2e" || op == "e2e_fresh" then specE2E "C15" h res
+    else "nospec"
   | "C14", ["e2e_hist", _] =>
     let r := " ".intercalate res
     verdict ((r.splitOn "poolviol=").length == 1) ("a pooled buffer or compressor was shared or released twice: " ++ ((r.splitOn "poolviol=").getD 1 ""))
@@ -147,13 +170,24 @@ def specCheck (prop : String) (op res : List String) : String :=
     | ["config-rejected"] => "ok"
     | _ => "fail unparsable result"
   | "C07", [op, h] =>
-    if op == "rest_in" || op == "rest_http" then
+    if op == "rest_out" then
+      verdict (runRestOut h == " ".intercalate res) "an RPC sent to a REST-only service did not reach the backend as the request its rule prescribes, exactly once (or was dispatched although it does not fit the rule)"
+    else if op == "rest_in" || op == "rest_http" then
       -- an ill-typed parameter is invalid_argument, never a value: judged against the model's kinds
       verdict (runRestIn h == " ".intercalate res) "REST request parsed differently from the binding rules (google.api.http)"
     else "nospec"
   | "C17", ["config", h] => specConfig h res
   | "C17", ["config_err", h] => specConfigErr h res
   | "C19", ["e2e_getpost", a, b] => specGetPost a b res
+  | "C19", ["schema_req", _] =>
+    -- the Connect backend stub flags a GET whose URL is longer than the configured maximum
+    verdict (((" ".intercalate res).splitOn "GET-URL-OVER-LIMIT").length == 1) "a GET longer than the configured maximum URL length was issued to the Connect backend"
+  | "C03", ["schema_rest_grpc", _] =>
+    let r := " ".intercalate res
+    if (r.splitOn "BAD-RESPONSE").length == 1 then "ok"
+    else if (r.splitOn "mode=ok-uncompressed-frame").length > 1 && (r.splitOn "content-encoding-gzip-but-body-is-not").length > 1 then
+      "fail [uncompressed-frame-to-unenveloped-peer] " ++ r
+    else "fail the response is not valid for a REST client: " ++ r
   | prop, ["e2e", h] => specE2E prop h res
   | prop, ["e2e_fresh", h] => specE2E prop h res
   | _, _ => "nospec"
